@@ -52,7 +52,8 @@ namespace nmtools::view
         auto operator()(const T& t, const U& u) const
         {
             if constexpr (meta::is_view_v<T> || meta::is_view_v<U>) {
-                using common_t [[maybe_unused]] = meta::common_type_t<T,U>;
+                // the common type of the ELEMENT types: common_type_t<view,float> is float even for a view of double
+                using common_t [[maybe_unused]] = meta::common_type_t<meta::get_element_type_t<T>,meta::get_element_type_t<U>>;
                 return math::pow(static_cast<common_t>(t),static_cast<common_t>(u));
             } else {
                 return math::pow(t,u);
